@@ -113,19 +113,30 @@ class Lock:
 
 
 # ----------------------------------------------------------------------------- translators
-def run_translators() -> list[str]:
-    """Regenerate coq/gen/*.v from /repo's working tree.  Returns error strings (fail-closed)."""
-    errs = []
+# which property's proofs import which generated file: a translator that cannot read the source concerns only those
+TRANSLATORS = {"shm_api.py": {"C17"}, "batchable.py": {"C15"}}
+
+
+def run_translators(pid: str | None = None):
+    """Regenerate coq/gen/*.v from the repository's working tree (all translators, or those property `pid` depends on).
+    Returns (errors, fallbacks): exit code 3 of a translator = it could not read the current shape of the source and
+    installed the pinned table (translate/pinned/) instead -- the check then relies on the correspondence run alone to
+    tie that table to the code; any other non-zero exit = fail closed (a file that cannot compile was left)."""
+    errs, fallbacks = [], {}
     gen = COQ / "gen"
     gen.mkdir(exist_ok=True)
     tdir = ROOT / "translate"
     for t in sorted(tdir.glob("*.py")):
         if t.name.startswith("_"):
             continue
+        if pid is not None and pid not in TRANSLATORS.get(t.name, {pid}):
+            continue
         rc, out = sh([PY, str(t), str(REPO), str(gen)], timeout=60)
-        if rc != 0:
+        if rc == 3:
+            fallbacks[t.name] = out.strip()[-600:]
+        elif rc != 0:
             errs.append(f"translator {t.name} failed: {out.strip()[-800:]}")
-    return errs
+    return errs, fallbacks
 
 
 def write_if_changed(path: Path, text: str):
@@ -330,6 +341,7 @@ class Ctx:
         self.rng = random.Random(f"{pid}:{seed}")
         self.t0 = time.time()
         self.notes = []
+        self.fallbacks = {}
 
     def n(self, quick, thorough):
         return thorough if self.tier == "thorough" else quick
@@ -423,7 +435,11 @@ def main(argv=None):
 
     # 1. translators, source gate, proof build
     proof_ok, proof_msg, build_log = True, "", ""
-    terrs = run_translators()
+    terrs, fallbacks = run_translators(pid)
+    ctx.fallbacks = fallbacks
+    for tname, why in fallbacks.items():
+        ctx.notes.append(f"translator {tname} could not read the current source ({why}); the pinned table translate/pinned/ was installed "
+                         "and is tied to the code by this run's correspondence only")
     gate = source_gate()
     if terrs:
         proof_ok, proof_msg = False, "translator: " + "; ".join(terrs)
@@ -510,6 +526,7 @@ def main(argv=None):
             "correspondence_cases_checked_in_coq": res.corr_checked,
             "correspondence_disagreements": len(res.disagreements),
             "known_findings_observed": sorted(seen_known),
+            "translator_fallback": fallbacks,
             "notes": ctx.notes,
             **res.extra,
         },
